@@ -6,5 +6,6 @@ CONSTANTS
   EntryOf <- MCEntryOf
   MaxCookie = 6
   MaxOps = 5
+  Lifetimes = TRUE
 INVARIANTS Emit
 CHECK_DEADLOCK FALSE
